@@ -110,6 +110,7 @@ class Path:
         self.assume = {}     # fallible root term -> 'ok' | 'err'
         self.minlen = {}     # base loc -> minimum length implied by successful splits
         self.notes = []
+        self.err_cause = None
 
     def fork(self):
         p = Path()
@@ -119,6 +120,7 @@ class Path:
         p.assume = dict(self.assume)
         p.minlen = dict(self.minlen)
         p.notes = list(self.notes)
+        p.err_cause = self.err_cause
         return p
 
 class Result_:
@@ -728,15 +730,19 @@ class Interp:
         return None
 
     def assume_switch(self, path, d, v, armvals, site, sp):
-        path.guards.append({"cond": d, "value": v, "arms": armvals, "site": site, "sp": sp})
+        path.guards.append({"cond": d, "value": v, "arms": armvals, "site": site, "sp": sp, "nev": len(path.events)})
         if isinstance(d, tuple) and d[0] == "discr":
             t = d[1]
             r = peel(t)
             kind = "branch" if (isinstance(t, tuple) and t[0] == "branch") else type_kind_of(t)
             if kind == "branch" or kind == "result":
                 path.assume[r] = "ok" if v == 0 else "err"
+                if v != 0:
+                    path.err_cause = r
             elif kind == "option":
                 path.assume[r] = "ok" if v == 1 else "err"
+                if v != 1:
+                    path.err_cause = r
             else:
                 path.assume[r] = ("variant", v)
 
@@ -882,6 +888,8 @@ class Interp:
         if p == "core::ops::try_trait::Try::branch":
             return ("branch", a0)
         if p == "core::ops::try_trait::FromResidual::from_residual":
+            if isinstance(a0, tuple) and a0 and a0[0] == "agg" and a0[1] == "adt:Result::Err":
+                return ("from_residual", a0)
             return ("from_residual", a0)
         if p in ("core::option::Option::<T>::ok_or",):
             return ("call", "Option::ok_or", (a0, args[1]))
@@ -1157,8 +1165,44 @@ class Interp:
             if idx == 0:
                 return self.okv(ctx, path, t)
         if vname in ("Break", "Err"):
-            return ("errv", t)
+            return self.errv(path, t)
         return ("variant", t, vname, idx)
+
+    def errv(self, path, t, depth=0):
+        """Payload of the Err/Break variant of t (the error value), resolving ok_or / map_err plumbing."""
+        if isinstance(t, tuple) and t and depth < 8:
+            if t[0] == "branch":
+                inner = self.errv(path, t[1], depth + 1)
+                return ("agg", "adt:Result::Err", (inner,))     # Break(Err(e))
+            if t[0] == "agg" and t[1].startswith("adt:") and t[1].rsplit("::", 1)[-1] in ("Err", "Break") and t[2]:
+                return t[2][0]
+            if t[0] == "from_residual":
+                return self.errv(path, t[1], depth + 1)
+            if t[0] == "call" and t[1] == "Option::ok_or":
+                return t[2][1]
+            if t[0] == "call" and t[1] == "Result::map_err":
+                inner = self.errv(path, t[2][0], depth + 1)
+                return self.apply_fn(path, t[2][1], inner)
+            if t[0] == "call" and t[1] in ("Result::map", "Option::map"):
+                return self.errv(path, t[2][0], depth + 1)
+        return ("errv", t)
+
+    def apply_fn(self, path, f, x):
+        """Result of calling a closure / fn item on x when its body is a constant or constructor."""
+        if isinstance(f, tuple) and f and f[0] == "agg" and f[1].startswith("closure:"):
+            key = f[1][len("closure:"):]
+            for c in self.w.crates.values():
+                cf = c.fns.get(key)
+                if cf is not None:
+                    sub = Interp(self.w, inline=False)
+                    rs = sub.run(cf, args=[f, x], path=Path())
+                    rets = [r for r in rs if r.kind == "return"]
+                    if len(rets) == 1:
+                        return rets[0].ret
+        if isinstance(f, tuple) and f and f[0] == "fn":
+            nm = short(f[1])
+            return ("agg", "adt:" + nm, (x,))
+        return ("apply", f, x)
 
     def split(self, ctx, path, ce, p, name, args, site, blk, dest_ty):
         kind, wrap = SPLITTERS[p]
